@@ -1,6 +1,7 @@
 package props
 
 import (
+	"bytes"
 	"encoding/json"
 	"fmt"
 	"hash/fnv"
@@ -434,6 +435,26 @@ func buildFaultCases(r *core.Run, rng *rand.Rand, onlyBig bool) (cases []faultCa
 		}
 		for k := 0; k <= len(b.in.Data); k += step {
 			addCase(b.in, k, []string{"EOF", "ERR"}[k%2], fmt.Sprintf("well-formed file truncated at %d", k), uint32(k))
+		}
+	}
+	// (b') XMP packets (bare, and as the xpacket of a CR3 file): every truncation point
+	if !onlyBig {
+		xm := []fileInput{{Name: "gen:xmp/sample", Kind: "xmp", Data: []byte(sampleXMP), Gen: true}}
+		for k := 0; k < 2; k++ {
+			items := []gen.XItem{{P: "tiff:Make", Form: "attr", Q: "dq", V: 40, WS: "sp"}, {P: "aux:Lens", Form: "attr", Q: "sq", V: 300, WS: "nl"},
+				{P: "xmp:CreateDate", Form: []string{"attr", "elem"}[k], Q: "dq", WS: "nlsp"}, {P: "exif:FNumber", Form: "elem", Q: "dq", WS: "nl"}, {P: "xmp:Label", Form: "elem", Q: "dq", V: 700, WS: "sp"}}
+			xm = append(xm, fileInput{Name: fmt.Sprintf("gen:xmp/packet#%d", k), Kind: "xmp", Data: gen.BuildXMP(items, rng, 30*k, true).Data, Gen: true})
+		}
+		tiff := gen.BuildFullTIFF(rand.New(rand.NewSource(r.Seed)), "LE")
+		xm = append(xm, fileInput{Name: "gen:cr3+xmp", Kind: "cr3", Data: gen.WrapCR3(gen.CR3Parts{CMT1: tiff[:200], XPacket: []byte(sampleXMP)}, rng, 0), Gen: true})
+		for _, in := range xm {
+			from := 0
+			if in.Kind == "cr3" {
+				from = bytes.Index(in.Data, []byte("<?xpacket")) - 30
+			}
+			for k := from; k <= len(in.Data); k++ {
+				addCase(in, k, []string{"EOF", "ERR"}[k%2], fmt.Sprintf("well-formed %s truncated at %d", in.Kind, k), uint32(k))
+			}
 		}
 	}
 	// (c) the repository's samples: whole, seeded cuts, seeded byte mutations
